@@ -23,7 +23,7 @@ def n_duct_cells(n_ring):
 
 def asm_block(name, n_ring=2, pitch=0.0040, dpin=0.0032, wire=0.0004, clr=0.0002, wall=0.001, n_duct=1,
               byp=0.0015, pin_model=None, unrodded=None, low_fidelity=None, grid=None, wdir='counterclockwise',
-              hotspot=False, length=1.0, conv_factor=None, outer=None):
+              hotspot=False, length=1.0, conv_factor=None, outer=None, duct_mat='ss316'):
     inner = 3 ** 0.5 * (n_ring - 1) * pitch + dpin + 2 * wire + clr
     if outer is not None:
         # all assemblies must share the outer flat-to-flat distance: widen the clearance
@@ -42,7 +42,7 @@ def asm_block(name, n_ring=2, pitch=0.0040, dpin=0.0032, wire=0.0004, clr=0.0002
         wire_diameter   = {wire}
         wire_direction  = {wdir}
         duct_ftf        = {', '.join(repr(round(v, 9)) for v in ftf)}
-        duct_material   = ss316
+        duct_material   = {duct_mat}
         corr_mixing     = CTD
         corr_friction   = CTD
         corr_flowsplit  = CTD
